@@ -217,31 +217,84 @@ def run(ctx, col: Collector):
     guarded(col, 'C18-once', 'applied-once', once)
 
     def direction():
-        fi = idx.func(UTILS, 'reorder_tables_for_sql')
+        from ..inline import inlined_info
+        fi = inlined_info(idx, idx.func(UTILS, 'reorder_tables_for_sql'), depth=2)
         params = [a.arg for a in fi.node.args.args]
         consts = const_names(ctx)
         holders = holder_sides(ctx)
         if len(holders) < 3:
             raise Unrecognised(f'could not read the key-holder side per kind from render_reference ({holders})')
         loops = [n for n in walk_no_nested(fi.node) if isinstance(n, ast.For) and norm(n.iter) == params[1]]
-        rets = [n for n in walk_no_nested(fi.node) if isinstance(n, ast.Return)]
-        srt = [r.value for r in rets if isinstance(r.value, ast.Call) and norm(r.value.func) == 'sorted']
-        if len(loops) != 1 or len(srt) != 1:
-            raise Unrecognised('reorder_tables_for_sql is not `count per table in one loop over refs, then sorted(...)`', fi.node)
+        # the sort: `return sorted(tables, key=K, reverse=R)` or `xs = list(tables); xs.sort(key=K, reverse=R); return xs`
+        sort_calls = [c for c in walk_no_nested(fi.node) if isinstance(c, ast.Call) and (
+            (isinstance(c.func, ast.Name) and c.func.id == 'sorted') or (isinstance(c.func, ast.Attribute) and c.func.attr == 'sort'))]
+        if len(loops) != 1 or len(sort_calls) != 1:
+            raise Unrecognised('reorder_tables_for_sql is not `count per table in one loop over refs, then one sort`', fi.node)
         loop = loops[0]
         rv = norm(loop.target)
-        rev = next((k.value for k in srt[0].keywords if k.arg == 'reverse'), None)
+        sc = sort_calls[0]
+        rev = next((k.value for k in sc.keywords if k.arg == 'reverse'), None)
         if rev is not None and not isinstance(rev, ast.Constant):
-            raise Unrecognised('reverse= is not a constant', srt[0])
-        descending = bool(rev.value) if rev is not None else False
+            raise Unrecognised('reverse= is not a constant', sc)
+        keyx = next((k.value for k in sc.keywords if k.arg == 'key'), None)
+        if keyx is None:
+            raise Unrecognised('the sort has no key function', sc)
+        kbody = None
+        if isinstance(keyx, ast.Lambda):
+            kbody = keyx.body
+        elif isinstance(keyx, ast.Name):
+            defs = [n for n in ast.walk(fi.node) if isinstance(n, ast.FunctionDef) and n is not fi.node and n.name == keyx.id]
+            if len(defs) == 1:
+                from ..grammar import action_value, Action
+                kbody = action_value(Action('func', fi.module, keyx.id, defs[0]))
+        if kbody is None:
+            raise Unrecognised(f'the sort key `{norm(keyx)[:40]}` is not a lambda or a local function this rule can read', sc)
+        negated = False
+        while isinstance(kbody, ast.UnaryOp) and isinstance(kbody.op, ast.USub):
+            negated = not negated
+            kbody = kbody.operand
+        if isinstance(kbody, ast.IfExp):      # `d[k] if k in d else 0`
+            kbody = kbody.body if not (isinstance(kbody.body, ast.Constant)) else kbody.orelse
+        if not any(isinstance(x, (ast.Subscript, ast.Call)) for x in ast.walk(kbody)):
+            raise Unrecognised(f'the sort key `{norm(kbody)[:40]}` is not a lookup of the per-table count', sc)
+        descending = (bool(rev.value) if rev is not None else False) != negated
         # the key must be the counter looked up by what the loop counted
         counted: Dict[str, Tuple[str, ast.AST]] = {}
-        inline_only = False
-        for n in ast.walk(loop):
-            if isinstance(n, ast.If) and norm(n.test) in (f'{rv}.inline',):
-                inline_only = True
-            if isinstance(n, ast.If) and norm(n.test).replace(' ', '') in (f'not{rv}.inline',) and any(isinstance(s, ast.Continue) for s in n.body):
-                inline_only = True
+        # every path that raises a counter has established `ref.inline` (path semantics: nesting, guard clauses and elif chains alike)
+        from ..paths import function_paths
+        from ..cond import term as _term, conjuncts as _conj
+        n_count = n_gated = 0
+        for path in function_paths(fi.node, unroll=1):
+            lits = []
+            is_none: Set[str] = set()      # locals known to hold None on this path (constant propagation: prunes infeasible paths)
+            feasible = True
+            for ev in path:
+                if not feasible:
+                    break
+                if ev.kind == 'test':
+                    new = _conj(_term(ev.node, ev.outcome))
+                    for l in new:
+                        if l[0] == 'not' and isinstance(l[1], tuple) and l[1][0] in ('none',) and l[1][1] in is_none:
+                            feasible = False
+                        if l[0] == 'truthy' and l[1] in is_none:
+                            feasible = False
+                    lits.extend(new)
+                elif ev.kind == 'stmt' and isinstance(ev.node, (ast.Assign, ast.AugAssign)):
+                    if isinstance(ev.node, ast.Assign) and len(ev.node.targets) == 1 and isinstance(ev.node.targets[0], ast.Name):
+                        v_ = ev.node.value
+                        nm_ = ev.node.targets[0].id
+                        if (isinstance(v_, ast.Constant) and v_.value is None) or (isinstance(v_, ast.Name) and v_.id in is_none):
+                            is_none.add(nm_)
+                        else:
+                            is_none.discard(nm_)
+                    t = ev.node.targets[0] if isinstance(ev.node, ast.Assign) else ev.node.target
+                    if isinstance(t, ast.Subscript) and any(x is ev.node for x in ast.walk(loop)):
+                        n_count += 1
+                        if ('truthy', f'{rv}.inline') in lits:
+                            n_gated += 1
+        if n_count == 0:
+            raise Unrecognised('no counter update found in the loop over the references', loop)
+        inline_only = n_gated == n_count
         def scan(node: ast.If):
             ks = kinds_of_test(node.test, rv)
             if ks:
